@@ -251,7 +251,7 @@ def run(E: Engine, rep: Report, tier: str) -> dict:
     # sequences: it is evaluated before the `if self.is_parametrized(): return` short-cut, because the call is
     # stored and the mode is already known then (otherwise the wrong-mode call surfaces only at build time)
     from .. import sym as _sym2
-    from .symutil import S as _S2, mentions as _mentions
+    from .symutil import S as _S2, is_ as _is2, mentions as _mentions
 
     par = _sym2.Pattern("self.is_parametrized()").term
     n_mode = 0
@@ -274,7 +274,20 @@ def run(E: Engine, rep: Report, tier: str) -> dict:
                     continue
                 n_mode += 1
                 rep.check(_sym2.mk_not(par) not in lits, "MODE", f"{g.short}|mode-rejection-before-parametrized-shortcut|{_sym2.show(tests[-1].value)[:30]}", "the mode rejection is evaluated for parametrized sequences too", f"{g.short}: the rejection guarded by `{_sym2.show(tests[-1].value)}` is reached only when the sequence is not parametrized -- on a parametrized sequence the call is stored although the mode forbids it, and fails only at build()", E.where(g, l.node))
-    rep.floor("MODE", 1)
+    # round 5 (independent audit): on a parametrized sequence config_slm_mask() returns early -- the once-only rule and the
+    # availability of the DMM (which the regular path and _config_detuning_map enforce) are decided before that return
+    csm = E.method(SEQ, "config_slm_mask")
+    par_raises = [l for l in _S2(E, csm).logged("raise") if l.fn == csm.short and any(_is2(x, "self.is_parametrized()") is not None for x in _sym2.conj_of(l.cond))]
+    once = any(_ment13(l.cond, "_slm_mask_targets") or (_ment13(l.cond, "_to_build_calls") and "config_slm_mask" in _sh13(l.cond, 2000)) for l in par_raises)
+    avail = any(_ment13(l.cond, "available_channels") for l in par_raises)
+    rep.check(once, "MODE", "Sequence.config_slm_mask|once-only-on-parametrized-sequence", "a second SLM mask is refused on the parametrized path too", "on a parametrized sequence config_slm_mask() returns before the 'SLM mask can be configured only once' guard: a second mask is accepted (declared_channels then lists dmm_0 and dmm_0_1) and only build() fails", E.where(csm))
+    rep.check(avail, "MODE", "Sequence.config_slm_mask|dmm-availability-on-parametrized-sequence", "the DMM must still be available on the parametrized path (Ising mode)", "on a parametrized sequence config_slm_mask() never checks that the DMM is still available: on a physical device the mask is accepted on the DMM a detuning map already uses, which a regular sequence refuses", E.where(csm))
+    # a stored config_slm_mask call declares a DMM only outside XY mode (in XY the mask is not played by a DMM)
+    dcp = next(g for g in E.cls(SEQ).methods.get("declared_channels", []) if g.kind != "setter")
+    scans = [x for l in _S2(E, dcp).log for x in _sym2.conj_of(l.cond) if "config_slm_mask" in _sh13(x, 400)]
+    ok_xy = bool(scans) and all(any(_sym2.mk_not(("attr", ("name", "self"), "_in_xy")) in _sym2.conj_of(d_) if d_[0] == "and" else False for d_ in ([x] if x[0] != "or" else list(x[1:]))) or any(_sym2.mk_not(("attr", ("name", "self"), "_in_xy")) in _sym2.conj_of(l2.cond) for l2 in _S2(E, dcp).log if x in _sym2.conj_of(l2.cond)) for x in scans)
+    rep.check(ok_xy, "MODE", "Sequence.declared_channels|stored-slm-mask-declares-a-dmm-only-outside-xy", "`call.name == 'config_slm_mask' and not self._in_xy`", "declared_channels counts a stored config_slm_mask call as a DMM declaration in XY mode too: a parametrized XY sequence lists 'dmm_0' next to its Microwave channel and accepts add_dmm_detuning / delay on it", E.where(dcp))
+    rep.floor("MODE", 4)
     return {
         "functions_analysed": len(E.S._callables),
         "timeline_writing_public_methods": sorted(timeline_methods),
